@@ -50,8 +50,23 @@ class StoreRun:
         ctx = self.ctx
         text, consts = cfg_text(self.over)
         scns = []
+        seen = [0]
+        cap = 150000            # scenarios kept in memory; beyond that a seeded reservoir sample is kept
+        rsv = random.Random(ctx.seed * 104729 + 7)
+
+        def keep(k, o):
+            if self.select is not None and not self.select(o):
+                # not selected for replay: only its promise is needed (for the prefixes of selected paths)
+                o = dict(steps=o["steps"], out=o["out"], allowed=o["allowed"], abs=o["abs"], _unselected=True)
+            seen[0] += 1
+            if len(scns) < cap:
+                scns.append(o)
+            else:
+                j = rsv.randrange(seen[0])
+                if j < cap:
+                    scns[j] = o
         res = vlib.run_tlc(ctx, "StoreMC", "StoreMC_gen.cfg", cfg_text=text, tag=self.name, timeout=self.timeout,
-                           workers=self.workers, on_scn=lambda k, o: scns.append(o))
+                           workers=self.workers, on_scn=keep)
         if res.status != "ok":
             tail = "\n".join(res.out[-60:])
             raise vlib.Undecided("StoreMC[%s]: TLC status=%s (model-level problem, not a verdict about the code)\n%s" % (self.name, res.status, tail))
@@ -61,8 +76,10 @@ class StoreRun:
         mids = {}
         for sc in scns:
             mids[(len(sc["steps"]), key_of(sc["steps"]))] = dict(out=sc["out"], allowed=sc["allowed"], abs=sc["abs"])
-        todo = [sc for sc in scns if (self.select is None or self.select(sc))]
+        todo = [sc for sc in scns if not sc.get("_unselected")]
         total = len(todo)
+        if seen[0] > len(scns):
+            cov["exhaustive"] = False
         if self.sample is not None and len(todo) > self.sample:
             rng = random.Random(ctx.seed * 7919 + len(todo))
             todo = rng.sample(todo, self.sample)
@@ -79,7 +96,7 @@ class StoreRun:
             sc["probes"] = self.probes
             sc["cache"] = self.cache
         st = dict(name=self.name, constants={k: consts[k] for k in consts if k != "EmitOn"}, distinct=res.distinct, generated=res.generated,
-                  depth=res.depth, scenarios=len(scns), selected=total, replayed=0, diverged=0, drift=0, cachefull=0,
+                  depth=res.depth, scenarios=seen[0], selected=total, replayed=0, diverged=0, drift=0, cachefull=0,
                   tlc_s=round(res.wall, 1), outs={}, feats={}, tainted=0)
         self.stats = st
 
